@@ -39,6 +39,20 @@ MODULES = {
                  "files": ["L_supervised.v"]},
     "utils": {"path": "umap/utils.py", "functions": ["tau_rand_int", "norm"], "sigs": {"tau_rand_int": {"args": {"state": VZ}}},
               "files": ["L_utils.v"]},
+    # the *_grad functions of named_distances_with_gradients (C14); a separate module so that the generated file is
+    # Src_distances_grads.v and C12's module (and its cache key) stay untouched.  `deps`: further library files the link
+    # files import (part of the cache key).
+    "distances_grads": {
+        "path": "umap/distances.py",
+        "functions": ["sign", "euclidean_grad", "standardised_euclidean_grad", "manhattan_grad", "chebyshev_grad", "minkowski_grad",
+                      "hyperboloid_grad", "weighted_minkowski_grad", "mahalanobis_grad", "canberra_grad", "bray_curtis_grad",
+                      "haversine_grad", "cosine_grad", "hellinger_grad", "symmetric_kl_grad", "correlation_grad",
+                      "spherical_gaussian_energy_grad", "diagonal_gaussian_energy_grad"],
+        "sigs": {},
+        "files": ["L_grads.v"],
+        "eval": "E_grads.v",
+        "deps": ["thm/T_link_arr.v", "model/M_grads.v", "model/V_grads.v"],
+    },
 }
 
 
@@ -114,7 +128,7 @@ def prepare(module, timeout=600):
     evalf = cfg.get("eval")
     evaltext = open(os.path.join(LINKSRC, evalf)).read() if evalf and os.path.exists(os.path.join(LINKSRC, evalf)) else None
     libsig = ""
-    for lib in ("lib/PyPrim.v", "lib/PyPrimLemmas.v", "thm/T_link.v", "lib/Num.v"):
+    for lib in ("lib/PyPrim.v", "lib/PyPrimLemmas.v", "thm/T_link.v", "lib/Num.v") + tuple(cfg.get("deps", ())):
         libsig += open(os.path.join(coqrun.COQ, lib)).read()
     key = _sha(text, *[t for _, t in files], evaltext or "", libsig)
     d = os.path.join(CACHE, module + "_" + key)
